@@ -72,6 +72,8 @@ MapElemsProg == <<Ob(Fl(Fl(Var(A), "map", <<Lit(Str(B_size))>>), "join", <<Lit(S
                   [t |-> "for", tag |-> "for", var |-> <<105>>, coll |-> Var(A), body |-> <<Ob(P(Var(<<105>>), B_size)), T(<<44>>)>>], Bar,
                   Ob(Fl(Fl(Fl(Var(A), "map", <<Lit(Str(JJ))>>), "compact", <<>>), "size", <<>>)), Bar, Ob(P(Ix(Var(A), Lit(IntV(1))), B_size)), Bar,
                   Ob(Fl(Fl(Fl(Var(A), "sort", <<Lit(Str(KK))>>), "map", <<Lit(Str(KK))>>), "join", <<Lit(Str(<<44>>))>>))>>
+EmptyWsProg == <<T(<<91, 97, 32, 32>>), Ob(Var(S0)), [t |-> "trimL"], Ob(Lit(Str(<<67>>))), T(<<93, 91>>), Ob(Lit(Str(<<67>>))), [t |-> "trimR"], Ob(Var(S0)), T(<<32, 32, 122, 93, 91, 32>>),
+                 [t |-> "trimL"], Ob(Var(S0)), [t |-> "trimR"], T(<<32, 120, 93>>)>>
 StrWsProg == <<T(<<91>>), Ob(Var(A)), [t |-> "trimL"], Ob(Lit(Str(<<120>>))), T(<<124>>), Ob(Lit(Str(<<121>>))), [t |-> "trimR"], Ob(Var(A)), T(<<124>>),
                Ob(Var(A)), [t |-> "trimL"], [t |-> "assign", name |-> <<113>>, e |-> Lit(IntV(1))], [t |-> "trimR"], Ob(Var(A)), T(<<93>>)>>
 MapProg == <<Ob(P(Var(M), KK)), Bar, Ob(Ix(Var(M), Lit(Str(JJ)))), Bar, Ob(P(Var(M), B_size)), Bar, Bit(Cmp("==", P(Var(M), KK), Lit(IntV(1)))),
@@ -142,6 +144,9 @@ Cases ==
   \* an array of strings that begin / end in white space, printed whole right next to a hyphen: whatever the hyphen
   \* does to what the array printed, it does the same for every representation of the array
   \cup [g : {"strws"}, r : {"", "strings", "array2", "drop", "ptr"}, k : 1..3]
+  \* a value that prints nothing - the empty text, as a string, as bytes, behind a Drop or a pointer; nil - right next to
+  \* hyphens with white space on the far side
+  \cup [g : {"emptyws"}, r : {"", "bytes", "drop", "ptr"}, k : 1..2]
   \* membership: every sequence representation x every width of the needle
   \cup [g : {"member"}, r : {"", "ints", "int64s", "int8s", "float64s", "array3", "drop"}, xr : 1..(Len(IntWidths) + 2), xv : {2, 5}]
   \cup [g : {"map"}, r : {"", "mapint", "mapslice", "drop", "ptr", "ptrmapslice", "ptrptr"}, er : {"", "drop", "int32", "uint8"}]
@@ -163,7 +168,7 @@ ProgOf(x) ==
     [] x.g = "seqtext" -> <<SeqTextProbes[x.p]>>
     [] x.g = "nilseq" -> <<NilSeqProbes[x.p]>>
     [] x.g = "shared" -> <<SharedProbes[x.p]>>
-    [] x.g \in {"num", "numf"} -> NumProg [] x.g = "flt" -> FltProg [] x.g = "seq" -> SeqProg [] x.g = "strseq" -> StrSeqProg [] x.g = "strws" -> StrWsProg
+    [] x.g \in {"num", "numf"} -> NumProg [] x.g = "flt" -> FltProg [] x.g = "seq" -> SeqProg [] x.g = "strseq" -> StrSeqProg [] x.g = "strws" -> StrWsProg [] x.g = "emptyws" -> EmptyWsProg
     [] x.g = "map" -> MapProg [] x.g = "mapsz" -> MapSzProg [] x.g = "mapelems" -> MapElemsProg [] x.g = "bytes" -> BytesProg [] x.g = "ptr" -> PtrProg [] x.g = "drop" -> DropProg
 M1(k, v) == MapV(<< <<k, v>> >>)
 EnvOf2(x) ==
@@ -178,6 +183,7 @@ EnvOf2(x) ==
                            << <<A, Arr(<<one, one, Arr(<<>>), Arr(<<>>), M1(KK, IntV(1)), M1(KK, IntV(1))>>)>>,
                               <<M, MapV(<< <<<<119>>, M1(KK, IntV(1))>>, <<X, one>>, <<Y, one>>, <<<<122>>, M1(KK, IntV(1))>> >>)>> >>
     [] x.g = "strseq" -> << <<A, Arr(<<Str(<<99>>), Str(<<97>>), Str(<<98>>)>>)>> >>
+    [] x.g = "emptyws" -> << <<S0, IF x.k = 1 THEN Str(<<>>) ELSE Nil>> >>
     [] x.g = "strws" -> << <<A, Arr(CASE x.k = 1 -> <<Str(<<97, 32>>), Str(<<32>>)>> [] x.k = 2 -> <<Str(<<32>>), Str(<<32, 98>>)>> [] x.k = 3 -> <<Str(<<32, 10>>), Str(<<9, 32>>)>>)>> >>
     [] x.g = "map" -> << <<M, MapV(<< <<JJ, IntV(4)>>, <<KK, IntV(1)>> >>)>> >>
     [] x.g = "mapsz" -> << <<M, MapV(<< <<KK, IntV(1)>>, <<B_size, Nil>> >>)>> >>
@@ -196,6 +202,7 @@ ReprOf(x) ==
     [] x.g = "seqtext" -> H("a", x.r)
     [] x.g = "nilseq" -> H("a", x.r) @@ H("a/1", x.er)
     [] x.g = "shared" -> ("@share" :> "1")
+    [] x.g = "emptyws" -> IF x.k = 2 /\ x.r = "bytes" THEN <<>> ELSE H("s", x.r)
     [] x.g = "strws" -> H("a", x.r)
     [] x.g = "strseq" -> H("a", x.r) @@ (IF x.r \in {"", "array3", "drop"} THEN H("a/0", x.er) ELSE <<>>)
     [] x.g = "map" -> H("m", x.r) @@ (IF x.r # "mapint" THEN H("m/k", x.er) ELSE <<>>)
